@@ -35,7 +35,7 @@ class Check(BaseCheck):
     ASSUMPTIONS = ('"serial equals days since 1899-12-30" and "adding n days" are demanded from 1 March 1900 on, as the statement scopes them; '
                    'January/February 1900 need only round-trip and be monotone',
                    'results before 1900 must be #NUM!; results beyond 9999-12-31 are not judged',
-                   'naive datetimes only (no tzinfo)')
+                   'naive datetimes only (no tzinfo); the process time zone is varied (7 POSIX zones) and must not matter')
 
     def plan(self, tier, seed):
         specs = [{'campaign': 'sentinels'}]
@@ -51,10 +51,12 @@ class Check(BaseCheck):
                 specs.append({'campaign': 'datetimes', 'n': 8000, 'seed': seed, 'i': i})
                 specs.append({'campaign': 'formulas', 'n': 1200, 'seed': seed, 'i': i, 'lo': None})
             specs.append({'campaign': 'formulas_days', 'lo': ORD0, 'hi': ORD0 + 366, 'seed': seed})
+            specs.append({'campaign': 'timezones', 'n': 40, 'seed': seed, 'step': 997, 'serial_thin': 20})
         else:
             for i in range(16):
                 specs.append({'campaign': 'datetimes', 'n': 150000, 'seed': seed, 'i': i})
                 specs.append({'campaign': 'formulas', 'n': 40000, 'seed': seed, 'i': i, 'lo': None})
+            specs.append({'campaign': 'timezones', 'n': 1500, 'seed': seed})
             # every day at formula level (DATEVALUE(DATE()), YEAR/MONTH/DAY(serial)), 64 shards
             k = 64
             st = (ORDN - ORD0 + 1 + k - 1) // k
@@ -279,6 +281,55 @@ class Check(BaseCheck):
         if abs(sa - sb) > 8 * MS:
             self.expect_is(rec, e, 'd_a<%s' % hx.numlit(float(sb)), a < b, 'datetime<serial')
             self.expect_is(rec, e, '%s>=d_b' % hx.numlit(float(sa)), a >= b, 'serial>=datetime')
+
+    ZONES = ['EST5EDT,M3.2.0,M11.1.0', 'CET-1CEST,M3.5.0,M10.5.0/3', 'AEST-10AEDT,M10.1.0,M4.1.0/3', 'IST-5:30', 'NZST-12NZDT,M9.5.0,M4.1.0/3', 'HST10', 'UTC0']
+
+    def c_timezones(self, spec, rec, utils):
+        """Naive date-times carry no zone: the serial of a date is the same number wherever the process runs.  The worker's zone is switched
+        (TZ + tzset, POSIX rules so that no zone database is needed) to zones with daylight-saving rules on both hemispheres and to a half-hour
+        offset, and a thinned copy of the day sweep, the serial sweep, the date-time workload and the formula workload runs in each."""
+        import os, time
+        old = os.environ.get('TZ')
+        real_violation = rec.violation
+        try:
+            for z in self.ZONES:
+                os.environ['TZ'] = z
+                time.tzset()
+                rec.violation = lambda key, _z=z, **w: real_violation(key + ':process-time-zone-not-UTC', process_time_zone=_z, **w)
+                step = spec.get('step', 53)
+                lo = ORD0 + (hash(z) % step)
+                days = list(range(lo, ORDN + 1, step)) + [datetime.date(y, m, d).toordinal() for y in (1970, 2021, 2024) for (m, d) in ((3, 14), (3, 28), (3, 29), (7, 1), (10, 31), (11, 7), (12, 31))]
+                prev_o = None
+                for o in sorted(set(days)):
+                    d = D.fromordinal(o)
+                    sv = utils.serialize_date(d)
+                    rec.case()
+                    if not (is_num(sv) and (d < MARCH1 or sv == o - BASE_ORD)):
+                        rec.violation('C13/serial-of-day' + self.where(d), date=d, got=sv, expected=o - BASE_ORD)
+                    elif not dt_close(utils.parse_date(sv), d):
+                        rec.violation('C13/day-does-not-round-trip' + self.where(d), date=d, serial=sv, back=utils.parse_date(sv))
+                    for h in (1, 2, 3, 12, 23):
+                        dt = d + datetime.timedelta(hours=h, minutes=30)
+                        sh = utils.serialize_date(dt)
+                        if d >= MARCH1 and not (is_num(sh) and abs(Fr(sh) - serial_of(dt)) <= Fr(1, 10 ** 8)):
+                            rec.violation('C13/serial-of-datetime' + self.where(d), date=dt, got=sh, expected=float(serial_of(dt)))
+                        elif is_num(sh) and not dt_close(utils.parse_date(sh), dt):
+                            rec.violation('C13/datetime-does-not-round-trip' + self.where(d), date=dt, serial=sh, back=utils.parse_date(sh))
+                    rec.nt(('tz-day', z, o))
+                for sn in range(61 + (hash(z) % 997), MAXS + 1, 997 * spec.get('serial_thin', 1)):
+                    dd = utils.parse_date(sn)
+                    rec.case()
+                    if dd != D.fromordinal(BASE_ORD + sn):
+                        rec.violation('C13/date-of-serial', serial=sn, got=dd, expected=D.fromordinal(BASE_ORD + sn))
+                self.c_formulas({'campaign': 'formulas', 'n': spec['n'], 'seed': spec['seed'], 'i': 'tz:' + z}, rec, utils)
+                rec.count('timezones_exercised')
+        finally:
+            rec.violation = real_violation
+            if old is None:
+                os.environ.pop('TZ', None)
+            else:
+                os.environ['TZ'] = old
+            time.tzset()
 
     def rand_day(self, rnd):
         k = rnd.random()
